@@ -83,13 +83,38 @@ theorem lowWidth_le (n u : Nat) (hu : u < 2 ^ 64) : lowWidth n u ≤ 63 := by
   unfold lowWidth
   split
   · rename_i h
-    have h1 : u / n ≠ 0 := by
-      have := Nat.div_pos h.2 h.1
+    have hm : 0 < max n 1 := by omega
+    have h1 : u / max n 1 ≠ 0 := by
+      have := Nat.div_pos h hm
       omega
-    have h2 : u / n < 2 ^ 64 := Nat.lt_of_le_of_lt (Nat.div_le_self _ _) hu
+    have h2 : u / max n 1 < 2 ^ 64 := Nat.lt_of_le_of_lt (Nat.div_le_self _ _) hu
     have := (Nat.log2_lt h1).2 h2
     omega
   · omega
+
+/-- the upper part of `u` is below `2 · max n 1`: the upper-bits vector has at most
+`n + 2 · max n 1` bits, whatever `u` -/
+theorem shr_lowWidth_lt (n u : Nat) : u >>> lowWidth n u < 2 * max n 1 := by
+  have hm : 0 < max n 1 := by omega
+  unfold lowWidth
+  split
+  · generalize max n 1 = m at *
+    have h1 : u / m < 2 ^ (Nat.log2 (u / m) + 1) := Nat.lt_log2_self
+    generalize Nat.log2 (u / m) = l at *
+    rw [Nat.div_lt_iff_lt_mul hm] at h1
+    rw [Nat.shiftRight_eq_div_pow, Nat.div_lt_iff_lt_mul (Nat.two_pow_pos l)]
+    have e : 2 ^ (l + 1) * m = 2 * m * 2 ^ l := by
+      rw [Nat.pow_succ, Nat.mul_comm (2 ^ l) 2, Nat.mul_assoc, Nat.mul_assoc, Nat.mul_comm (2 ^ l) m]
+    rw [e] at h1
+    exact h1
+  · rename_i h
+    rw [Nat.shiftRight_zero]
+    omega
+
+theorem fits_of_len (n u : Nat) (h : n + 2 * max n 1 < 2 ^ 64) :
+    n + (u >>> lowWidth n u) + 1 < 2 ^ 64 := by
+  have := shr_lowWidth_lt n u
+  omega
 
 /-! ## `new` -/
 
